@@ -218,6 +218,18 @@ fn simple_tagged_enum_name(raw_tag: &Option<Cow<'_, str>>, tag: &SfTag) -> Optio
     Some(candidate.to_owned())
 }
 
+/// The text of a scalar as a key or as the name of an enum variant. The parser reports an
+/// omitted node as the plain scalar `~`, but as an empty plain scalar when it carries an anchor:
+/// an anchor must not change what a node is, so both read `~`. (A tagged empty scalar - `!!str`
+/// followed by nothing - is that tag's empty value and stays as it is.)
+fn omitted_node_text<'v>(value: &'v str, style: &ScalarStyle, tag: &SfTag) -> &'v str {
+    if value.is_empty() && matches!(style, ScalarStyle::Plain) && tag == &SfTag::None {
+        "~"
+    } else {
+        value
+    }
+}
+
 /// Canonical fingerprint of a YAML node for duplicate-key detection.
 #[derive(Clone, Debug, PartialEq, Eq, Hash, Default)]
 enum KeyFingerprint {
@@ -294,10 +306,11 @@ impl<'a> KeyNode<'a> {
                     tag,
                     raw_tag,
                     value,
+                    style,
                     ..
                 }) = events.first()
                 {
-                    let value = value.to_string();
+                    let value = omitted_node_text(value, style, tag).to_string();
                     Cow::Owned(
                         KeyFingerprint::Scalar {
                             tag: *tag,
@@ -2798,6 +2811,8 @@ impl<'de, 'e> de::Deserializer<'de> for YamlDeserializer<'de, 'e> {
                 if let Some(tag_name) = simple_tagged_enum_name(raw_tag, tag) {
                     tagged_enum = Some((tag_name, *location));
                 }
+                // An omitted node names the same variant with and without an anchor.
+                let omitted_node = omitted_node_text(value, style, tag) != value.as_ref();
                 // (`no_schema` is about a scalar that names the variant; behind a tag that
                 // selects the variant the scalar is the payload, judged by the payload's type)
                 let tag_selects_variant = tagged_enum
@@ -2843,11 +2858,11 @@ impl<'de, 'e> de::Deserializer<'de> for YamlDeserializer<'de, 'e> {
                         Mode::TaggedNewtype(variant_name, tag_loc, replay)
                     } else {
                         let (value, _tag, loc) = self.take_scalar_event()?;
-                        Mode::Unit(value, loc)
+                        Mode::Unit(if omitted_node { "~".to_owned() } else { value }, loc)
                     }
                 } else {
                     let (value, _tag, loc) = self.take_scalar_event()?;
-                    Mode::Unit(value, loc)
+                    Mode::Unit(if omitted_node { "~".to_owned() } else { value }, loc)
                 }
             }
             Some(Ev::MapStart { .. }) => {
@@ -2866,7 +2881,10 @@ impl<'de, 'e> de::Deserializer<'de> for YamlDeserializer<'de, 'e> {
                         {
                             return Err(Error::quoting_required(&value).with_location(location));
                         }
-                        Mode::Map(value.to_string(), location)
+                        Mode::Map(
+                            omitted_node_text(&value, &style, &tag).to_string(),
+                            location,
+                        )
                     }
                     Some(other) => {
                         return Err(Error::ExpectedStringKeyForExternallyTaggedEnum {
